@@ -507,7 +507,7 @@ def replay_conv(pyhf, case, base, out, add):
                     detail["explained_by"] = "restoring the original lumi sigma in the re-imported workspace restores likelihood equality"
             for f in lf:
                 out["fields"][f] = out["fields"].get(f, 0) + 1
-            add("re-imported model assigns a different likelihood than the original (" + ", ".join(lf) + ")", detail, tags)
+            add("model of the re-imported workspace differs from the original model (" + ", ".join(lf) + ")", detail, tags)
         if sum(len(s["modifiers"]) for c in orig["channels"] for s in c["samples"]) >= 2:
             out["nontrivial"] += 1
     finally:
